@@ -588,6 +588,27 @@ pub fn scenarios(quick: bool) -> Vec<Scenario> {
     }
     if !quick {
         v.push(Scenario { ops: vec![(ReadVec, InFlight), (WriteVec, Queued), (MultishotRead, MidStream)], sq_clone: true, ..base.clone() });
+        // Every pair of operation states, on a roomy and on a two-entry queue.
+        let pairs: Vec<(Kind, OpState)> = vec![
+            (ReadVec, Queued),
+            (ReadVec, InFlight),
+            (ReadVec, AbandonedCancelQueued),
+            (ReadVec, AbandonedCancelLost),
+            (ReadVec, FinishedUnpolled),
+            (SendZc, InFlight),
+            (MultishotRead, MidStream),
+            (MultishotAccept, MidStream),
+            (OpenFile, InFlight),
+            (ReadPool, InFlight),
+        ];
+        for (i, a) in pairs.iter().enumerate() {
+            for b in &pairs[i..] {
+                v.push(Scenario { ops: vec![*a, *b], ..base.clone() });
+                v.push(Scenario { ops: vec![*a, *b], sq: 2, direct_fd: true, ..base.clone() });
+            }
+        }
+        // Three operations plus every other kind of object.
+        v.push(Scenario { ops: vec![(ReadVec, InFlight), (SendZc, InFlight), (MultishotRead, MidStream)], sq_clone: true, direct_fd: true, pool: true, buf_owned: true, ..base.clone() });
     }
     v
 }
